@@ -151,6 +151,7 @@ func (g *Generator) Generate(dict *dictionary.Dictionary) ([]byte, error) {
 		if vendor.GetLengthOctets() != 1 || vendor.GetTypeOctets() != 1 {
 			return nil, errors.New("dictionarygen: cannot generate code for " + vendor.Name)
 		}
+		baseImports["errors"] = struct{}{}
 
 		for _, attr := range vendor.Attributes {
 			if _, ignored := ignoredAttributes[attr.Name]; ignored {
